@@ -541,8 +541,12 @@ func (o *c15Oracle) close() {
 	for _, d := range sortedKeys(o.jsonDatas) {
 		jsons = append(jsons, fmt.Sprintf("(%s, %s)", c15S(d), hx.CoqBool(json.Valid([]byte(d)))))
 	}
+	maxfile := "None"
+	if c15MaxFile > 0 {
+		maxfile = "(Some " + hx.CoqZ(c15MaxFile) + ")"
+	}
 	o.term = "(mkOr " + strings.Join([]string{hx.CoqList(keys), hx.CoqList(merges), hx.CoqList(encs), hx.CoqList(lockdec), hx.CoqList(lockenc), hx.CoqList(vals),
-		hx.CoqList(untar), hx.CoqList(jsons), hx.CoqList(sans), hx.CoqList(semv), hx.CoqList(rests), hx.CoqList(o.ign), hx.CoqList(o.matchErr), hx.CoqList(depnames)}, "\n  ") + ")"
+		hx.CoqList(untar), hx.CoqList(jsons), hx.CoqList(sans), hx.CoqList(semv), hx.CoqList(rests), hx.CoqList(o.ign), hx.CoqList(o.matchErr), hx.CoqList(depnames), maxfile}, "\n  ") + ")"
 }
 
 func c15DefaultAPI(m *chart.Metadata) *chart.Metadata {
